@@ -18,5 +18,5 @@ cd ..
 for e in $(ls coq/extract/Extract_*.v | sed 's/.*Extract_\(.*\)\.v/\1/'); do
   ./build_engine.sh $e || echo "setup: engine $e failed"
 done
-(cd harness && go build -tags verif -o ../bin/harness .)
+for c in harness/cmd/*/; do (cd harness && go build -tags verif -o ../bin/$(basename $c) ./cmd/$(basename $c)) || echo "setup: harness $(basename $c) failed"; done
 echo "setup done"
